@@ -116,6 +116,11 @@ func verifC19File(bufLen int) {
 	r2, e2 := s.RetrieveRule(b)
 	verifAssert(e2 != nil && r2 == nil, "c19: a closed list yields an error and no rule")
 	verifAssert(s.RetrieveNetworkRule(b) == nil && s.RetrieveHostRule(b) == nil, "c19: the typed helpers return nil on error")
+	// a failed retrieval of another rule does not take away what is in memory
+	if ra != nil {
+		r3, e3 := s.RetrieveRule(a)
+		verifAssert(e3 == nil && r3 == ra, "c19: a rule materialised before the fault is still served after other retrievals have failed")
+	}
 	// the scanner of a closed list yields nothing
 	sc := s.NewRuleStorageScanner()
 	verifAssert(!sc.Scan(), "c19: scanning a closed list yields no rule")
